@@ -1,1 +1,250 @@
-//! (to be filled)
+//! Independent, strict parser of the Prometheus text exposition format 0.0.4, written from the format
+//! description (not from the exporter): line classes, name grammars, escape sequences, value forms,
+//! one TYPE per family and before its samples, sample-name suffixes allowed per type.
+#[derive(Clone, Debug, PartialEq)]
+pub struct Sample {
+    pub name: String,
+    /// decoded label pairs in the order written
+    pub labels: Vec<(String, String)>,
+    pub value: String,
+}
+impl Sample {
+    pub fn value_f64(&self) -> f64 {
+        parse_value(&self.value).unwrap_or(f64::NAN)
+    }
+    pub fn label(&self, k: &str) -> Option<&str> {
+        self.labels.iter().find(|(n, _)| n == k).map(|(_, v)| v.as_str())
+    }
+    /// labels without `le` / `quantile`, sorted
+    pub fn series_labels(&self) -> Vec<(String, String)> {
+        let mut l: Vec<(String, String)> = self.labels.iter().filter(|(k, _)| k != "le" && k != "quantile").cloned().collect();
+        l.sort();
+        l
+    }
+}
+#[derive(Clone, Debug, PartialEq)]
+pub struct Family {
+    pub name: String,
+    pub help: Option<String>,
+    pub ty: String,
+    pub samples: Vec<Sample>,
+}
+
+fn is_name(s: &str, colon: bool) -> bool {
+    let mut cs = s.chars();
+    match cs.next() {
+        Some(c) if c.is_ascii_alphabetic() || c == '_' || (colon && c == ':') => {}
+        _ => return false,
+    }
+    cs.all(|c| c.is_ascii_alphanumeric() || c == '_' || (colon && c == ':'))
+}
+
+pub fn parse_value(s: &str) -> Option<f64> {
+    let l = s.to_ascii_lowercase();
+    let body = l.strip_prefix('+').or_else(|| l.strip_prefix('-')).unwrap_or(&l);
+    match body {
+        "inf" | "infinity" => return Some(if l.starts_with('-') { f64::NEG_INFINITY } else { f64::INFINITY }),
+        "nan" => return Some(f64::NAN),
+        _ => {}
+    }
+    if s.is_empty() || s.chars().any(|c| !(c.is_ascii_digit() || "+-.eE".contains(c))) {
+        return None;
+    }
+    s.parse::<f64>().ok()
+}
+
+fn unescape(s: &str, allow_quote: bool) -> Result<String, String> {
+    let mut out = String::new();
+    let mut cs = s.chars();
+    while let Some(c) = cs.next() {
+        if c == '\\' {
+            match cs.next() {
+                Some('\\') => out.push('\\'),
+                Some('n') => out.push('\n'),
+                Some('"') if allow_quote => out.push('"'),
+                Some(o) => return Err(format!("invalid escape sequence \\{}", o)),
+                None => return Err("dangling backslash".into()),
+            }
+        } else {
+            out.push(c);
+        }
+    }
+    Ok(out)
+}
+
+fn parse_sample(line: &str) -> Result<Sample, String> {
+    // name
+    let end = line.find(|c: char| c == '{' || c == ' ').ok_or_else(|| format!("sample line without value: {:?}", line))?;
+    let name = &line[..end];
+    if !is_name(name, true) {
+        return Err(format!("invalid metric name {:?} in line {:?}", name, line));
+    }
+    let mut rest = &line[end..];
+    let mut labels = Vec::new();
+    if rest.starts_with('{') {
+        rest = &rest[1..];
+        loop {
+            if let Some(r) = rest.strip_prefix('}') {
+                rest = r;
+                break;
+            }
+            let eq = rest.find('=').ok_or_else(|| format!("label without '=' in {:?}", line))?;
+            let lname = &rest[..eq];
+            if !is_name(lname, false) {
+                return Err(format!("invalid label name {:?} in line {:?}", lname, line));
+            }
+            rest = &rest[eq + 1..];
+            if !rest.starts_with('"') {
+                return Err(format!("label value not quoted in {:?}", line));
+            }
+            rest = &rest[1..];
+            // find the closing quote: first '"' not preceded by an odd number of backslashes
+            let bytes = rest.as_bytes();
+            let mut i = 0;
+            let mut close = None;
+            while i < bytes.len() {
+                if bytes[i] == b'\\' {
+                    i += 2;
+                    continue;
+                }
+                if bytes[i] == b'"' {
+                    close = Some(i);
+                    break;
+                }
+                i += 1;
+            }
+            let close = close.ok_or_else(|| format!("unterminated label value in {:?}", line))?;
+            let raw = &rest[..close];
+            let val = unescape(raw, true).map_err(|e| format!("{} in label value of {:?}", e, line))?;
+            if labels.iter().any(|(k, _): &(String, String)| k == lname) {
+                return Err(format!("label name {:?} repeated in {:?}", lname, line));
+            }
+            labels.push((lname.to_string(), val));
+            rest = &rest[close + 1..];
+            if let Some(r) = rest.strip_prefix(',') {
+                rest = r;
+                if rest.starts_with('}') {
+                    // trailing comma is tolerated by the format
+                    continue;
+                }
+            } else if !rest.starts_with('}') {
+                return Err(format!("garbage after label value in {:?}", line));
+            }
+        }
+    }
+    let rest = rest.strip_prefix(' ').ok_or_else(|| format!("no space before value in {:?}", line))?;
+    let mut parts = rest.split(' ');
+    let value = parts.next().unwrap_or("");
+    if parse_value(value).is_none() {
+        return Err(format!("value {:?} is not a float in line {:?}", value, line));
+    }
+    if let Some(ts) = parts.next() {
+        if ts.parse::<i64>().is_err() {
+            return Err(format!("timestamp {:?} is not an integer in {:?}", ts, line));
+        }
+    }
+    if parts.next().is_some() {
+        return Err(format!("trailing garbage in {:?}", line));
+    }
+    Ok(Sample { name: name.to_string(), labels, value: value.to_string() })
+}
+
+fn allowed(fam: &Family, s: &Sample) -> bool {
+    let n = &fam.name;
+    match fam.ty.as_str() {
+        "counter" | "gauge" | "untyped" => s.name == *n,
+        "histogram" => (s.name == format!("{}_bucket", n) && s.label("le").is_some()) || s.name == format!("{}_sum", n) || s.name == format!("{}_count", n),
+        "summary" => (s.name == *n && s.label("quantile").is_some()) || s.name == format!("{}_sum", n) || s.name == format!("{}_count", n),
+        _ => false,
+    }
+}
+
+pub fn parse(text: &str) -> Result<Vec<Family>, String> {
+    let mut fams: Vec<Family> = Vec::new();
+    if text.is_empty() {
+        return Ok(fams);
+    }
+    if !text.ends_with('\n') {
+        return Err("exposition does not end with a newline".into());
+    }
+    let mut pending_help: Option<(String, String)> = None;
+    let mut open = false; // is the last family still accepting samples?
+    for line in text[..text.len() - 1].split('\n') {
+        if line.is_empty() {
+            continue;
+        }
+        if let Some(r) = line.strip_prefix("# HELP ") {
+            let (name, txt) = r.split_once(' ').unwrap_or((r, ""));
+            if !is_name(name, true) {
+                return Err(format!("invalid metric name in HELP line {:?}", line));
+            }
+            let txt = unescape(txt, false).map_err(|e| format!("{} in HELP line {:?}", e, line))?;
+            if pending_help.is_some() {
+                return Err(format!("HELP line {:?} follows another HELP line without a TYPE", line));
+            }
+            if fams.iter().any(|f| f.name == name) {
+                return Err(format!("second HELP/TYPE block for family {:?}", name));
+            }
+            pending_help = Some((name.to_string(), txt));
+            open = false;
+        } else if let Some(r) = line.strip_prefix("# TYPE ") {
+            let (name, ty) = r.split_once(' ').ok_or_else(|| format!("TYPE line without type: {:?}", line))?;
+            if !is_name(name, true) {
+                return Err(format!("invalid metric name in TYPE line {:?}", line));
+            }
+            if !["counter", "gauge", "histogram", "summary", "untyped"].contains(&ty) {
+                return Err(format!("unknown type in {:?}", line));
+            }
+            if fams.iter().any(|f| f.name == name) {
+                return Err(format!("more than one TYPE line for family {:?}", name));
+            }
+            let help = match pending_help.take() {
+                Some((hn, ht)) => {
+                    if hn != name {
+                        return Err(format!("HELP for {:?} is followed by TYPE for {:?}", hn, name));
+                    }
+                    Some(ht)
+                }
+                None => None,
+            };
+            fams.push(Family { name: name.to_string(), help, ty: ty.to_string(), samples: vec![] });
+            open = true;
+        } else if line.starts_with('#') {
+            return Err(format!("line is neither HELP, TYPE, sample nor blank: {:?}", line));
+        } else {
+            let s = parse_sample(line)?;
+            if pending_help.is_some() {
+                return Err(format!("sample {:?} follows a HELP line without TYPE", line));
+            }
+            let fam = match fams.last_mut() {
+                Some(f) if open => f,
+                _ => return Err(format!("sample {:?} is not preceded by the TYPE line of its family", line)),
+            };
+            if !allowed(fam, &s) {
+                return Err(format!("sample name {:?} does not belong to the preceding family {:?} of type {} (family name or family name plus an allowed suffix)", s.name, fam.name, fam.ty));
+            }
+            fam.samples.push(s);
+        }
+    }
+    if let Some((n, _)) = pending_help {
+        return Err(format!("HELP for {:?} without TYPE", n));
+    }
+    Ok(fams)
+}
+
+/// (sample name, sorted labels) that occur more than once
+pub fn duplicate_series(fams: &[Family]) -> Vec<String> {
+    let mut seen = std::collections::BTreeSet::new();
+    let mut dup = Vec::new();
+    for f in fams {
+        for s in &f.samples {
+            let mut l = s.labels.clone();
+            l.sort();
+            let k = format!("{}{:?}", s.name, l);
+            if !seen.insert(k.clone()) {
+                dup.push(k);
+            }
+        }
+    }
+    dup
+}
